@@ -339,7 +339,7 @@ func runWorker(bin string, args []string, stderrPath string) (int, string) {
 	ef, _ := os.Create(stderrPath)
 	cmd.Stderr = ef
 	cmd.Stdout = ef
-	cmd.Env = append(os.Environ(), "GOTRACEBACK=single")
+	cmd.Env = append(append(os.Environ(), "GOTRACEBACK=single"), extraEnv...)
 	if err := cmd.Start(); err != nil {
 		return -1, err.Error()
 	}
@@ -707,6 +707,20 @@ func repoState() string {
 }
 
 func doReplay() int {
+	if prop == "C18" {
+		// a race report cannot be pinned to one case: replay = the whole concurrent run of that tier and seed
+		if b, err := ioutil.ReadFile(replay); err == nil {
+			var doc struct {
+				Tier string `json:"tier"`
+				Seed uint64 `json:"seed"`
+			}
+			if json.Unmarshal(b, &doc) == nil && doc.Tier != "" {
+				tier, seed = doc.Tier, doc.Seed
+			}
+		}
+		t0 := time.Now()
+		return conclude(runAll(), time.Since(t0))
+	}
 	b, err := ioutil.ReadFile(replay)
 	if err != nil {
 		fmt.Println("cannot read replay file:", err)
